@@ -1,4 +1,4 @@
 SPECIFICATION Spec
-CONSTANTS NC = 2  NT = 2  MaxVeto = 1  LogBeforeWrite = TRUE  HonourVeto = TRUE  CloseConnOnVeto = TRUE  DrainOnEOF = TRUE  LateVetoCloses = FALSE  GenHist = FALSE
+CONSTANTS NC = 2  NT = 2  MaxVeto = 1  LogBeforeWrite = TRUE  HonourVeto = TRUE  CloseConnOnVeto = TRUE  DrainOnEOF = TRUE  LateVetoCloses = FALSE  HookMax = 2  PutbackFirst = TRUE  GenHist = FALSE
 INVARIANTS NoViolation NoViolationAtEnd
 CHECK_DEADLOCK FALSE
